@@ -141,4 +141,14 @@ def mkRegistry (fixed : List (Name × List Kind)) : Registry := fun f =>
     | some ks => some fun _ _ _ => .ok ks
     | none => none
 
+/-- the built-ins whose result kinds depend on the (refinable) kinds of their arguments in a way that is
+    not monotone: they answer for a scalar argument and raise for the user type it may be refined to -/
+def heavy (f : Name) : Bool :=
+  f == "<builtin>matmul" || f == "<builtin>linear_solve" || f == "<builtin>transpose" || f == "<builtin>svd"
+
+/-- the registry without those four: norms, `len`, `isnan`, `dot_product`, `array`, `print`,
+    `elementwise_abs` + user functions with fixed result kinds -/
+def mkRegistrySimple (fixed : List (Name × List Kind)) : Registry := fun f =>
+  if heavy f then none else mkRegistry fixed f
+
 end Dagrt.Kinds
